@@ -306,15 +306,17 @@ def inherited_class_slots():
         for K in owners:
             fam = {c for c in classes if K in _c3(classes, c, memo)}
             for D in sorted(fam & inst):
-                if classes[D][1].get(attr):
-                    continue
+                if attr in classes[D][1]:
+                    continue                      # bound in D's own body (to anything): the walk stops at D's own dictionary
                 for B in _c3(classes, D, memo)[1:]:
                     if B not in fam:
                         continue
                     if classes[B][1].get(attr):
-                        break
+                        break                     # an accepted body binding: found first, never replaced
                     if B in inst:
                         out.add((attr, B, D))
+                    elif attr in classes[B][1]:
+                        break                     # a rejected binding on a class that is never used: the walk stops there for good
     return sorted(out)
 
 
